@@ -125,18 +125,22 @@ package keeper
 //@   loop 1 invariant forall j int :: 0 <= j && j < len(newValidators) ==> pos.queue[val.UnstakingCompletionTime][newValidators[j]]
 //@   loop 1 invariant forall k int :: 0 <= k && k <= #rangeindex && validators[k] != val.Address ==> (exists j int :: {j == len(newValidators) - 1} 0 <= j && j < len(newValidators) && newValidators[j] == validators[k])
 //@   ensures pos.queue[val.UnstakingCompletionTime] == upd(old(pos.queue[val.UnstakingCompletionTime]), val.Address, false)
-//@ assumed func (k Keeper) GetValidatorSigningInfo(ctx sdk.Ctx, address sdk.Address) (info types.ValidatorSigningInfo, found bool)
+//@ func (k Keeper) GetValidatorSigningInfo(ctx sdk.Ctx, address sdk.Address) (info types.ValidatorSigningInfo, found bool)
 //@   mode value
+//@   props C08
 //@   ensures found == pos.sinfohas[address] && (found ==> info == pos.sinfo[address])
-//@ assumed func (k Keeper) SetValidatorSigningInfo(ctx sdk.Ctx, address sdk.Address, info types.ValidatorSigningInfo)
+//@ func (k Keeper) SetValidatorSigningInfo(ctx sdk.Ctx, address sdk.Address, info types.ValidatorSigningInfo)
 //@   mode value
+//@   props C08
 //@   modifies pos.sinfo[address], pos.sinfohas[address]
 //@   ensures pos.sinfo[address] == info && pos.sinfohas[address]
-//@ assumed func (k Keeper) getMissedBlockArray(ctx sdk.Ctx, address sdk.Address, index int64) (missed bool)
+//@ func (k Keeper) getMissedBlockArray(ctx sdk.Ctx, address sdk.Address, index int64) (missed bool)
 //@   mode value
+//@   props C08
 //@   ensures missed == pos.missed[address][index]
-//@ assumed func (k Keeper) SetMissedBlockArray(ctx sdk.Ctx, address sdk.Address, index int64, missed bool)
+//@ func (k Keeper) SetMissedBlockArray(ctx sdk.Ctx, address sdk.Address, index int64, missed bool)
 //@   mode value
+//@   props C08
 //@   modifies pos.missed[address]
 //@   ensures pos.missed[address] == upd(old(pos.missed[address]), index, missed)
 // C08: jailing for downtime clears the whole ring of the validator (iterate the per-address prefix, delete every entry)
@@ -150,24 +154,41 @@ package keeper
 //@   loop 1 invariant forall a Bytes :: a != address ==> pos.missed[a] == old(pos.missed)[a]
 //@   loop 1 invariant pos.vals == old(pos.vals) && pos.has == old(pos.has) && pos.idx == old(pos.idx) && pos.queue == old(pos.queue) && pos.sinfo == old(pos.sinfo) && pos.sinfohas == old(pos.sinfohas) && pos.awards == old(pos.awards) && pos.awardq == old(pos.awardq) && pos.awardsum == old(pos.awardsum) && pos.burns == old(pos.burns) && pos.burnq == old(pos.burnq) && pos.stakesum == old(pos.stakesum) && pos.proposer == old(pos.proposer) && pos.proposerset == old(pos.proposerset) && pos.prev == old(pos.prev) && pos.prevhas == old(pos.prevhas) && pos.prevtotal == old(pos.prevtotal)
 //@   ensures forall i int :: !pos.missed[address][i]
-//@ assumed func (k Keeper) getValidatorAward(ctx sdk.Ctx, address sdk.Address) (coins sdk.Int, found bool)
+// verified against the store view of 0x51 keys (KVStore Get/Set/Delete clauses [award]); amino round trip assumed
+//@ func (k Keeper) getValidatorAward(ctx sdk.Ctx, address sdk.Address) (coins sdk.Int, found bool)
 //@   mode value
-//@   ensures val(coins) == pos.awards[address]
-//@ assumed func (k Keeper) setValidatorAward(ctx sdk.Ctx, amount sdk.Int, address sdk.Address)
+//@   props C10 C04
+//@   uses awardinv
+//@   ensures val(coins) == pos.awards[address] && found == pos.awardq[address]
+//@ func (k Keeper) setValidatorAward(ctx sdk.Ctx, amount sdk.Int, address sdk.Address)
 //@   mode value
+//@   props C10 C04
 //@   modifies pos.awards[address], pos.awardq[address], pos.awardsum
 //@   ensures pos.awards[address] == val(amount) && pos.awardq[address] && pos.awardsum == old(pos.awardsum) - old(pos.awards[address]) + val(amount)
-// previous-state powers (prefix 0x31): the module's memory of the validator set Tendermint currently has
-//@ assumed func (k Keeper) SetPrevStateValPower(ctx sdk.Ctx, addr sdk.Address, power int64)
+//@ func (k Keeper) deleteValidatorAward(ctx sdk.Ctx, address sdk.Address)
 //@   mode value
+//@   props C10
+//@   modifies pos.awards[address], pos.awardq[address], pos.awardsum
+//@   ensures pos.awards[address] == 0 && !pos.awardq[address] && pos.awardsum == old(pos.awardsum) - old(pos.awards[address])
+// previous-state powers (prefix 0x31): the module's memory of the validator set Tendermint currently has
+// verified against the store view of 0x31 / 0x32 keys (KVStore clauses [prev], [prevtotal]); amino round trip assumed
+//@ func (k Keeper) PrevStateValidatorPower(ctx sdk.Ctx, addr sdk.Address) (power int64)
+//@   mode value
+//@   props C05
+//@   ensures power == ite(pos.prevhas[addr], pos.prev[addr], 0)
+//@ func (k Keeper) SetPrevStateValPower(ctx sdk.Ctx, addr sdk.Address, power int64)
+//@   mode value
+//@   props C05
 //@   modifies pos.prev[addr], pos.prevhas[addr]
 //@   ensures pos.prev[addr] == power && pos.prevhas[addr]
-//@ assumed func (k Keeper) DeletePrevStateValPower(ctx sdk.Ctx, addr sdk.Address)
+//@ func (k Keeper) DeletePrevStateValPower(ctx sdk.Ctx, addr sdk.Address)
 //@   mode value
+//@   props C05
 //@   modifies pos.prevhas[addr]
 //@   ensures !pos.prevhas[addr]
-//@ assumed func (k Keeper) SetPrevStateValidatorsPower(ctx sdk.Ctx, power sdk.Int)
+//@ func (k Keeper) SetPrevStateValidatorsPower(ctx sdk.Ctx, power sdk.Int)
 //@   mode value
+//@   props C05
 //@   modifies pos.prevtotal
 //@   ensures pos.prevtotal == val(power)
 // C05 (heap mode): the map built from the previous-state iterator has, for every entry, the key bytes 1..20 as its
@@ -221,24 +242,34 @@ package keeper
 //@   ensures [slots] forall i int :: 0 <= i && i < pit.len[r] ==> key_kind(pit.key[r][i]) == 65 && key_time(pit.key[r][i]) <= endTime && uq.slot[r][key_time(pit.key[r][i])] == i
 //@   ensures [members] forall i int, j int :: 0 <= i && i < pit.len[r] && 0 <= j && j < dec_addrs_len(pit.val[r][i]) ==> pos.queue[key_time(pit.key[r][i])][dec_addrs_at(pit.val[r][i], j)] && uq.posin[r][dec_addrs_at(pit.val[r][i], j)] == j
 //@   ensures [complete] forall t int, a Bytes :: t <= endTime && pos.queue[t][a] ==> 0 <= uq.slot[r][t] && uq.slot[r][t] < pit.len[r] && key_time(pit.key[r][uq.slot[r][t]]) == t && 0 <= uq.posin[r][a] && uq.posin[r][a] < dec_addrs_len(pit.val[r][uq.slot[r][t]]) && dec_addrs_at(pit.val[r][uq.slot[r][t]], uq.posin[r][a]) == a
-//@ assumed func (k Keeper) GetPreviousProposer(ctx sdk.Ctx) (address sdk.Address)
+//@ func (k Keeper) GetPreviousProposer(ctx sdk.Ctx) (address sdk.Address)
 //@   mode value
+//@   props C10
 //@   panics when !pos.proposerset
 //@   ensures address == pos.proposer
-//@ assumed func (k Keeper) SetPreviousProposer(ctx sdk.Ctx, address sdk.Address)
+//@ func (k Keeper) SetPreviousProposer(ctx sdk.Ctx, address sdk.Address)
 //@   mode value
+//@   props C10
 //@   modifies pos.proposer, pos.proposerset
 //@   ensures pos.proposer == address && pos.proposerset
 // NB: when nothing is queued the real function returns the zero sdk.Dec{} whose big.Int is nil - any arithmetic on it
 // panics (BurnValidator does exactly that on first use). The value-mode Dec has no nil state, so the contract says
 // nothing about `coins` in that case.
-//@ assumed func (k Keeper) getValidatorBurn(ctx sdk.Ctx, address sdk.Address) (coins sdk.Dec, found bool)
+// verified against the store view of 0x52 keys (KVStore Get/Set/Delete clauses [burn]); amino round trip assumed
+//@ func (k Keeper) getValidatorBurn(ctx sdk.Ctx, address sdk.Address) (coins sdk.Dec, found bool)
 //@   mode value
+//@   props C07
 //@   ensures found == pos.burnq[address] && (found ==> val(coins) == pos.burns[address])
-//@ assumed func (k Keeper) setValidatorBurn(ctx sdk.Ctx, amount sdk.Dec, address sdk.Address)
+//@ func (k Keeper) setValidatorBurn(ctx sdk.Ctx, amount sdk.Dec, address sdk.Address)
 //@   mode value
+//@   props C07
 //@   modifies pos.burns[address], pos.burnq[address]
 //@   ensures pos.burns[address] == val(amount) && pos.burnq[address]
+//@ func (k Keeper) deleteValidatorBurn(ctx sdk.Ctx, address sdk.Address)
+//@   mode value
+//@   props C07
+//@   modifies pos.burns[address], pos.burnq[address]
+//@   ensures pos.burns[address] == 0 && !pos.burnq[address]
 //@ assumed func (k Keeper) getPubKeyRelation(ctx sdk.Ctx, address crypto.Address) (pk posCrypto.PublicKey, err error)
 //@   mode value
 //@   ensures (err == nil) == pkrel_ok(address)
